@@ -126,6 +126,10 @@ def v_rules(schema: Schema, rep: Report):
     el = p.get_class(TYPES, "Element")
     trel = p.module(TYPES).relpath
     sn = el.own_func("__set_name__")
+    if sn is not None:
+        from .flat import flat as _flat_sn
+
+        sn = _flat_sn(p, TYPES, sn, el)
     ok = sn is not None and any(isinstance(s_, ast.Assign) and text(s_.targets[0]) == "self.name" and Expander(sn).t(s_.value) == params_of(sn)[2] for s_ in own_statements(sn))
     rep.check("V-R4", "Element.__set_name__", ok, "the descriptor does not record the attribute name it is bound to" if not ok else "", f"{trel}:{sn.lineno if sn else 0}")
     g = el.own_func("__get__")
